@@ -46,6 +46,17 @@ def run(prog: Program, rep: Report, tier: str) -> None:
     rep.rule("R12.1", "Days table: 7 members, weekday 0..6 (Monday first), hex_rep == bit_rep == 2**(weekday+1), all distinct, bit 0 unused", 7, structural=True)
     rep.rule("R12.2", "encoder normal form: empty -> ValueError; single day -> '{:02x}' of its bit; set, or sequence guarded by len == len(set) -> '{:02x}' of the sum of bit_rep; every other path raises ValueError", 6)
     rep.rule("R12.3", "decoder normal form: masks outside [2,254] raise ValueError; otherwise the result is exactly {d : d.hex_rep & mask != 0}", 100)
+    rep.rule("R12.6", "structural: the collection argument of the encoder is never the bare right operand of %-formatting: `text % days` unpacks a tuple of days as the "
+                      "format arguments, so a duplicate-free tuple of two or more days raises TypeError instead of being encoded", 1, structural=True)
+    import ast as _ast
+    for fkey_ in (f"{TOOLS}:weekdays_to_hexadecimal",):
+        f_ = prog.func(fkey_)
+        prm_ = set(f_.params[:1])
+        hits_ = [n_ for n_ in _ast.walk(f_.node) if isinstance(n_, _ast.BinOp) and isinstance(n_.op, _ast.Mod)
+                 and ((isinstance(n_.left, _ast.Constant) and isinstance(n_.left.value, str)) or isinstance(n_.left, _ast.JoinedStr)) and isinstance(n_.right, _ast.Name) and n_.right.id in prm_]
+        rep.check(not hits_, "R12.6", f"{f_.qualname}: no bare %-formatting of an argument", f"{f_.module.relpath}:{(hits_[0].lineno if hits_ else f_.node.lineno)} {f_.qualname}",
+                  f"`{_ast.unparse(hits_[0])[:80] if hits_ else ''}`: when the argument is a tuple its items become the format arguments - a valid tuple of several days raises TypeError (whatever the log level: the text is built eagerly)",
+                  key=f"R12.6|{f_.qualname}")
     rep.rule("R12.5", "encoder and decoder are not memoised and return fresh values: no cache decorator, the decoder's result set is created inside the call (a shared mutable result would make a later decode of the same mask return whatever a caller did to the earlier result)", 2)
     rep.rule("R12.4", "lemma on the table: the bits are distinct powers of two in [2,128], so the sum over any subset has exactly its bits, lies in [2,254], fits two hex digits, and decoding returns the subset", 1, structural=True)
     rep.trusted += ["format spec '02x' = at least two zero-padded lower-case hex digits; & on ints; sum(); set semantics (CPython docs)"]
